@@ -25,7 +25,7 @@ def cases(tier, seed):
                 c = {"func": f, "N": N, "G": G, "mask": {"kind": mk}, "dtype": dt, "rep": "contiguous", "witness": f == "mean" and mk == "none"}
                 c["name"] = f"GroupBy.{f}(transform=True)/{dt}/contiguous keys/N={N},G={G}/mask={mk}"
                 out.append(c)
-            for lengths in compositions(N, 2 if tier == "quick" else 3, 2):
+            for lengths in compositions(N, 2 if tier == "quick" else 3, 2) + ([[1, 2, 1]] if tier == "quick" and f in ("sum", "mean", "first") else []):
                 for rep in ("chunked+pointers", "chunked-unified"):
                     c = {"func": f, "N": N, "G": G, "mask": {"kind": mk}, "dtype": "float64", "rep": rep, "lengths": lengths,
                          "witness": f == "sum" and mk == "none"}
